@@ -6,6 +6,8 @@ import ClipVerif.Proofs.C17
 import ClipVerif.Proofs.C02
 import ClipVerif.Model.Out
 import ClipVerif.Proofs.Out
+import ClipVerif.Model.Ring
+import ClipVerif.Proofs.Ring
 /-
 C02 — closed solutions are a canonical, non-overlapping polygon set.  The winding claim is global
 and explored by the search (region oracle with the solution's own edges as band, plus Union(sol) =
@@ -138,5 +140,59 @@ theorem buildPaths_no_adjacent_duplicates (preserve reverse : Bool) (recs : List
     (out : List (List Point64)) (ho : buildPaths preserve reverse recs = some out) :
     ∀ p ∈ out, ∀ i, i + 1 < p.length → p[i]! ≠ p[i + 1]! := by
   exact Proofs.BuildPaths.buildPaths_no_adjacent_duplicates preserve reverse recs out ho
+
+/-! ### Assembly of output rings during the sweep (model `Model.Ring` of `addLocalMinPoly`, `addOutPt`,
+`addLocalMaxPoly`, `joinOutrecPaths`, `swapOutrecs`, `setOwner`; a state machine over the hot / cold edges and
+the table of output records, tied by `models-corr ring`).  A ring under construction stands for the open
+polyline `path ring` from its front tip to its back tip. -/
+
+/-- every state reached by operations the sweep can issue (local minima on two different cold edges,
+points on hot edges, local maxima on two different hot edges) keeps hot edges and output records coupled:
+a hot edge's record exists, has points and names the edge as its front or back edge; the front / back edge
+of a record is a hot edge of that record; front and back edge differ -/
+theorem ring_coupling_invariant (usingTree : Bool) (n : Nat) (s : Model.Ring.St)
+    (h : Proofs.Ring.Reachable usingTree n s) :
+    Proofs.Ring.invB s = true ∧ s.edgeRec.length = n := by
+  exact Proofs.Ring.reachable_inv usingTree n s h
+
+/-- one step of the above -/
+theorem ring_step_invariant (usingTree : Bool) (s s' : Model.Ring.St) (op : Model.Ring.Op)
+    (hi : Proofs.Ring.invB s = true) (hv : Proofs.Ring.validB s op = true)
+    (h : Model.Ring.step usingTree s op = some s') :
+    Proofs.Ring.invB s' = true ∧ s'.edgeRec.length = s.edgeRec.length := by
+  exact Proofs.Ring.step_inv usingTree s s' op hi hv h
+
+/-- `addOutPt` on the front edge: the polyline grows at its head, unless the point repeats the tip -/
+theorem addOutPt_front (f : Point64) (rest : List Point64) (p : Point64) :
+    Model.Ring.path (Model.Ring.addPtRing (f :: rest) true p).1 =
+      if p = f then Model.Ring.path (f :: rest) else p :: Model.Ring.path (f :: rest) := by
+  exact Proofs.Ring.addPt_front_path f rest p
+
+/-- `addOutPt` on the back edge: the polyline grows at its end, unless the point repeats the tip -/
+theorem addOutPt_back (f : Point64) (rest : List Point64) (p : Point64) :
+    Model.Ring.path (Model.Ring.addPtRing (f :: rest) false p).1 =
+      if p = (Model.Ring.path (f :: rest)).getLast (by simp [Model.Ring.path]) then Model.Ring.path (f :: rest)
+      else Model.Ring.path (f :: rest) ++ [p] := by
+  exact Proofs.Ring.addPt_back_path f rest p
+
+/-- the `OutPt` that `addOutPt` returns carries the point it was given (position 0 = front tip, 1 = back tip) -/
+theorem addOutPt_result (f : Point64) (rest : List Point64) (toFront : Bool) (p : Point64) :
+    ((Model.Ring.addPtRing (f :: rest) toFront p).1.rotateLeft
+      (Model.Ring.addPtRing (f :: rest) toFront p).2).head? = some p := by
+  exact Proofs.Ring.addPt_result f rest toFront p
+
+/-- `joinOutrecPaths` splices two polylines tip to tip — no point is lost, duplicated or reordered: the
+second record's polyline goes in front of the first's when the first edge is its record's front edge,
+behind it otherwise; the second record is emptied; no other ring changes -/
+theorem joinOutrecPaths_splices (s s' : Model.Ring.St) (e1 e2 r1 r2 : Nat)
+    (h1 : s.recOf e1 = some r1) (h2 : s.recOf e2 = some r2) (hne : r1 ≠ r2)
+    (hr1 : r1 < s.recs.length) (hr2 : r2 < s.recs.length)
+    (h : Model.Ring.joinOutrecPaths s e1 e2 = some s') :
+    Model.Ring.path (s'.getRec r1).pts =
+      (if (s.getRec r1).front = some e1 then Model.Ring.path (s.getRec r2).pts ++ Model.Ring.path (s.getRec r1).pts
+       else Model.Ring.path (s.getRec r1).pts ++ Model.Ring.path (s.getRec r2).pts) ∧
+    (s'.getRec r2).pts = [] ∧
+    (∀ r, r ≠ r1 → r ≠ r2 → (s'.getRec r).pts = (s.getRec r).pts) := by
+  exact Proofs.Ring.join_paths s s' e1 e2 r1 r2 h1 h2 hne hr1 hr2 h
 
 end C02
